@@ -66,6 +66,8 @@ def _prefix_in(name, prefixes):
 def _who_may_call(ck, g, rule, sinks_re, allow, what, reviewed=None):
     reviewed = reviewed or {}
     roots = [f for f in g.funcs if WS.match(f) and not _prefix_in(f, allow)]
+    # statics / constants of the workspace crates hold function pointers and closures that run later
+    roots += [s_ for s_ in g.statics if WS.match(s_) and not _prefix_in(s_, allow)]
     blocked = [f for f in g.funcs if _prefix_in(f, allow)]
     if not blocked:
         ck.refuted(rule, "anchor-missing:%s" % ",".join(allow), "", "the functions allowed to reach %s no longer exist under these names" % what)
@@ -163,6 +165,7 @@ def run(ck, tier):
     for rule, rx, must in (("R-C10-net", S_NET, "libc::socket"), ("R-C10-files", S_FS, "std::fs::File::create"), ("R-C10-proc", S_PROC, "std::process::Command::status")):
         ck.decide(rule, "control:%s" % must, must in all_names and bool(rx.match(must)), "", "positive control: sink %s is present in the closure and matched by the sink table" % must)
 
+    _control(ck)
     par_net, gated_net = _who_may_call(ck, g, "R-C10-net", S_NET, ALLOW_NET, "network")
     par_fs, gated_fs = _who_may_call(ck, g, "R-C10-files", S_FS, ALLOW_FS, "file-modifying", REVIEWED_FS)
     par_pr, gated_pr = _who_may_call(ck, g, "R-C10-proc", S_PROC, ALLOW_PROC, "process-spawning")
@@ -174,6 +177,23 @@ def run(ck, tier):
     _noread(ck, p, g)
     _externs(ck, g, par_net)
     _deps(ck, p)
+
+
+# ---- positive control: the same pipeline on a crate that does reach the sinks ----------------------
+def _control(ck):
+    try:
+        d = facts.build_control()
+    except facts.FactsError as e:
+        ck.refuted("R-C10-net", "control:build", "", "the positive-control crate could not be analysed: %s" % e)
+        return
+    g = callgraph.CallGraph(d)
+    roots = [f for f in g.funcs if f.startswith("hf_control::")] + [s_ for s_ in g.statics if s_.startswith("hf_control::")]
+    par = g.reach(roots)
+    names = {g.pretty(n) for n in par}
+    for rule, rx, fn in (("R-C10-net", S_NET, "phones_home"), ("R-C10-files", S_FS, "dumps"), ("R-C10-proc", S_PROC, "spawns")):
+        sub = g.reach([r for r in roots if r == "hf_control::%s" % fn])
+        hit = sorted(g.pretty(n) for n in sub if rx.match(g.pretty(n)))
+        ck.decide(rule, "control:hf_control::%s" % fn, bool(hit), "selftest/control/src/lib.rs", "positive control: the rule reports %s for a function that really reaches such a sink" % (hit or "NOTHING"))
 
 
 # ---- the bound address is a constant loopback literal -----------------------------------------
